@@ -75,6 +75,13 @@ def gate_arr(mk, name, dims_where, kind, as_tensor):
     return G, G
 
 
+def check_array_untouched(mk, label, G, G0):
+    """the caller's gate ARRAY is exactly as it was before the call(s) (shape and entries)"""
+    mk.same(f"{label}: gate array shape untouched", tuple(G.shape), tuple(G0.shape))
+    if tuple(G.shape) == tuple(G0.shape):
+        mk.eq(f"{label}: gate array entries untouched", G, G0)
+
+
 def check_vec(mk, label, before, after, G, dims, where, site_inds, transpose=False, dagger=False):
     M = G
     if dagger:
@@ -121,8 +128,11 @@ def gate_lazy_eager(mk, geom, contract, tform):
             if n == 3 and where not in ((0, 1, 2), (2, 0, 1)):
                 continue
             Gin, G = gate_arr(mk, f"G{n}", [dims[w] for w in where], "cplx", tform)
+            Gin0 = Gin.copy()
             out = psi.gate(Gin, where if n > 1 else where[0], contract=contract, tags="GATE")
+            G = Gin0.reshape(G.shape)
             check_vec(mk, f"contract={contract} where={where}", before, out, G, dims, where, sinds)
+            check_array_untouched(mk, f"contract={contract} where={where}", Gin, Gin0)
             mk.same(f"contract={contract} where={where}: receiver untouched", set(psi.outer_inds()), set(sinds))
             for i in range(L):
                 mk.same(f"contract={contract} where={where}: site tag {i} still present", psi.site_tag(i) in out.tag_map, True)
@@ -131,6 +141,7 @@ def gate_lazy_eager(mk, geom, contract, tform):
                 check_vec(mk, f"contract={contract} where={where} transpose", before, out, G, dims, where, sinds, transpose=True)
                 out = psi.gate(Gin, where if n > 1 else where[0], contract=contract, dagger=True)
                 check_vec(mk, f"contract={contract} where={where} dagger", before, out, G, dims, where, sinds, dagger=True)
+                check_array_untouched(mk, f"contract={contract} where={where} after transpose / dagger use", Gin, Gin0)
 
 
 @obligation(PROP, params=[{"contract": c, "prop": p} for c in (False, "split-gate") for p in (False, True, "sites", "register")])
@@ -182,8 +193,11 @@ def gate_split_modes(mk, geom, contract, where):
     sinds = [psi.site_ind(i) for i in range(L)]
     before = dense_vec(psi, sinds)
     Gin, G = gate_arr(mk, "G", [dims[w] for w in where], "real", False)
+    Gin0 = Gin.copy()
     out = psi.gate(Gin, where, contract=contract, cutoff=0.0)
+    G = Gin0.reshape(G.shape)
     check_vec(mk, f"contract={contract} where={where}", before, out, G, dims, where, sinds)
+    check_array_untouched(mk, f"contract={contract} where={where}", Gin, Gin0)
     for i in range(L):
         mk.same(f"site tag {i} still present", psi.site_tag(i) in out.tag_map, True)
     if contract in _SPLIT:
@@ -209,6 +223,8 @@ def gate_mps_modes(mk, mode, where):
     sinds = [psi.site_ind(i) for i in range(3)]
     before = dense_vec(psi, sinds)
     Gin, G = gate_arr(mk, "G", [2, 2], "real", False)
+    Gin0 = Gin.copy()
+    G = Gin0.reshape(G.shape)
     info = {"cur_orthog": None}
     if mode in ("swap+split", "nonlocal", "auto-mps"):
         out = psi.gate(Gin, where, contract=mode, info=info, cutoff=0.0)
@@ -224,6 +240,7 @@ def gate_mps_modes(mk, mode, where):
             raise Skip("sub-MPO is built for ascending sites")
         out = psi.gate_with_submpo(sub, info=info, cutoff=0.0)
     check_vec(mk, f"{mode} where={where}", before, out, G, dims, where, sinds)
+    check_array_untouched(mk, f"{mode} where={where}", Gin, Gin0)
     mk.same("still a 3-tensor MPS", (out.num_tensors, isinstance(out, qtn.MatrixProductState)), (3, True))
     for i in range(3):
         mk.same(f"site {i}: tensor has its site tag and site index", out.site_ind(i) in out[i].inds, True)
@@ -263,6 +280,14 @@ def gate_operator_network(mk, which, contract, where):
             want = ref.matmul(ref.matmul(M, Xd), ref.dag(M))
         mk.same(f"which={which} dagger={dag}: outer labels unchanged", set(out.outer_inds()), set(up + lo))
         mk.eq(f"which={which} dagger={dag} where={where}: dense as documented", od, want)
+    # transpose=True ("G is replaced by G^T", no conjugation): G^T X, X G, G^T X conj(G)
+    out = X.gate(Gin, where if len(where) > 1 else where[0], which=which, contract=contract, transpose=True)
+    od = ref.tn_dense(out, tuple(up) + tuple(lo)).reshape(2 ** L, 2 ** L)
+    M = np.asarray(E).T
+    want = {"upper": lambda: ref.matmul(M, Xd), "lower": lambda: ref.matmul(Xd, np.asarray(M).T),
+            "sandwich": lambda: ref.matmul(ref.matmul(M, Xd), ref.dag(M))}[which]()
+    mk.same(f"which={which} transpose: outer labels unchanged", set(out.outer_inds()), set(up + lo))
+    mk.eq(f"which={which} transpose where={where}: dense as documented (G replaced by G^T)", od, want)
 
 
 @obligation(PROP, params=[{"contract": c, "D": D, "_tiers": ("quick", "thorough") if D == 1 or c in (False, True) else ("thorough",)}
@@ -724,8 +749,7 @@ def gate_simple_long_range_plumbing(mk, geom, where, opt, path):
                 mk.eq(f"{lab}: [numeric-only supplement] gauge on {k} (off the path) unchanged", gauges[k], g0[k])
 
 
-@obligation(PROP, params=[{"where": w, "opt": o, "_tiers": ("quick", "thorough") if (w, o) in (((0, 1), "plain"), ((2, 1), "transpose")) else ("thorough",)}
-                          for w in ((0, 1), (1, 0), (1, 2), (2, 1)) for o in _GS_OPTS],
+@obligation(PROP, params=[{"where": w, "opt": o} for w in ((0, 1), (1, 0), (1, 2), (2, 1)) for o in _GS_OPTS],
             rounds=2, timeout_s=400, wall_s=300, max_rows=80000)
 def gate_simple_renorm(mk, where, opt):
     """gate_simple_ with the DEFAULT renorm=True on a nearest-neighbour pair: the new bond gauge is the vector of new
@@ -756,3 +780,64 @@ def gate_simple_renorm(mk, where, opt):
     for k in g0:
         if k != bond:
             mk.eq(f"{lab}: gauge on {k} (away from the gate) unchanged", gauges[k], g0[k])
+
+
+@obligation(PROP, params=[{"opt": o, "inplace": ip} for o in _GS_OPTS for ip in (True, False)])
+def gate_simple_one_site_operator(mk, opt, inplace):
+    """gate_simple / gate_simple_ with a one-site gate on every site of a gauged OPERATOR network (MPO L=2, symbolic
+    positive bond gauge): the physical operator becomes M X M^dag with M = G | G^T | G^dag; gauge store untouched"""
+    mk.encodes(ag.tensor_network_ag_gate_simple, ag.tensor_network_ag_gate, qg.tensor_network_gate_sandwich_inds)
+    L = 2
+    X0 = mpo(mk, L, "cplx")
+    outer = [X0.upper_ind(i) for i in range(L)] + [X0.lower_ind(i) for i in range(L)]
+    g0 = sym_gauges(mk, X0)
+    before = physical_dense(X0, g0, outer).reshape(2 ** L, 2 ** L)
+    for site in range(L):
+        X = X0.copy()
+        gauges = {k: np.array(v, copy=True) for k, v in g0.items()}
+        G = mk.array(f"G{site}", (2, 2), "cplx")
+        G0 = G.copy()
+        out = (X.gate_simple_ if inplace else X.gate_simple)(G, (site,), gauges, cutoff=0.0, **_GS_OPTS[opt])
+        lab = f"operator gate_simple{'_' if inplace else ''}({opt}) where=({site},)"
+        mk.same(f"{lab}: outer labels unchanged", set(out.outer_inds()), set(outer))
+        mk.same(f"{lab}: gauge store has the same bonds", set(gauges), set(g0))
+        for k in g0:
+            mk.eq(f"{lab}: gauge on {k} unchanged by a one-site gate", gauges[k], g0[k])
+        M = ref.embed(_gs_matrix(G0, opt), [2] * L, (site,))
+        mk.eq(f"{lab}: physical operator == M X M^dag", physical_dense(out, gauges, outer).reshape(2 ** L, 2 ** L),
+              ref.matmul(ref.matmul(M, before), ref.dag(M)))
+        check_array_untouched(mk, lab, G, G0)
+
+
+@obligation(PROP, params=[{"geom": g, "contract": c, "inplace": ip} for g in ("mps", "graph") for c in (False, True) for ip in (False, True)
+                          if not (g == "graph" and ip)])
+def gate_array_reuse(mk, geom, contract, inplace):
+    """ONE gate array object applied twice in a row (gate / gate_, contract False / True) on EVERY ordered pair of target
+    tuples (first, second): the array is untouched after each call and the result is (G on second)(G on first) @ dense"""
+    mk.encodes(qg.tensor_network_gate_inds, qg._tensor_network_gate_inds_basic, qg.maybe_factor_gate, ag.tensor_network_ag_gate)
+    if geom == "graph":
+        psi, dims = graph_state(mk, "cplx")
+        L = 4
+        pairs = [((0, 1), (1, 0)), ((0, 1), (2, 3)), ((2, 0), (0, 3)), ((1, 3), (1, 3))]
+    else:
+        psi, dims = mps(mk, 3, "cplx")
+        L = 3
+        pairs = [(a, b) for a in _wheres(3, 2) for b in _wheres(3, 2)]
+    sinds = [psi.site_ind(i) for i in range(L)]
+    before = dense_vec(psi, sinds)
+    G = mk.array("G", (4, 4), "cplx")
+    G0 = G.copy()
+    first_done = {}
+    for first, second in pairs:
+        if inplace:
+            out = psi.copy()
+            r = out.gate_(G, first, contract=contract)
+            r2 = out.gate_(G, second, contract=contract)
+            mk.same(f"gate_ first={first} second={second}: inplace returns the receiver", (r is out, r2 is out), (True, True))
+        else:
+            out = psi.gate(G, first, contract=contract).gate(G, second, contract=contract)
+        if first not in first_done:
+            first_done[first] = ref.matmul(ref.embed(G0, dims, first), before)
+        check_vec(mk, f"contract={contract} first={first} then second={second} with the same array", first_done[first], out, G0, dims, second, sinds)
+        check_array_untouched(mk, f"contract={contract} first={first} second={second}", G, G0)
+    mk.eq("receiver value untouched", dense_vec(psi, sinds), before)
